@@ -24,7 +24,7 @@ class KGTimerHandler:
 def _call_periodic(loop: asyncio.BaseEventLoop, name, interval, callback):
     start = loop.time()
 
-    def run(handle, fn=callback):
+    def run(handle, when=None, fn=callback):
         r = fn()
         if r:
             if handle.delegate is None:
@@ -33,7 +33,11 @@ def _call_periodic(loop: asyncio.BaseEventLoop, name, interval, callback):
             if interval == 0:
                 handle.delegate = loop.call_soon(run, handle)
             else:
-                handle.delegate = loop.call_later(interval - ((loop.time() - start) % interval), run, handle)
+                # next boundary after the one just served; the loop may dispatch up to its
+                # clock resolution early, so "now" alone cannot tell which boundary this was
+                missed = max(0, (loop.time() - when) // interval)
+                when = when + (missed + 1) * interval
+                handle.delegate = loop.call_at(when, run, handle, when)
         else:
             handle.cancel()
 
@@ -41,7 +45,7 @@ def _call_periodic(loop: asyncio.BaseEventLoop, name, interval, callback):
     if interval == 0:
         periodic.delegate = loop.call_soon(run, periodic)
     else:
-        periodic.delegate = loop.call_at(start + interval, run, periodic)
+        periodic.delegate = loop.call_at(start + interval, run, periodic, start + interval)
 
     return periodic
 
